@@ -118,7 +118,39 @@ def _(rng):
 def _(rng):
     w = rng.randint(1, 6)
     t = rng.randint(w, w + 8)
-    return dict(data=farr(rng, t, rng.randint(1, 4)), window_size=w)
+    return dict(data=_layout(rng, farr(rng, t, rng.randint(1, 4))), window_size=w)
+
+
+def _layout(rng, a):
+    """the same T x N values in one of the memory layouts a caller can hand over (the property is about values, for every
+    series): C order, Fortran order, a column block / a column list of a wider table, a 1-D signal viewed as a column
+    (stride 0 or 8 on the length-1 axis), reversed or strided rows, float32 / integer element types"""
+    m = rng.randint(0, 9)
+    t, n = a.shape
+    if m == 0:
+        return np.asfortranarray(a)
+    if m == 1:
+        wide = np.hstack([a + 1000.0, a, a - 1000.0])
+        return wide[:, n:2 * n]
+    if m == 2:
+        wide = np.hstack([a + 1000.0, a])
+        return wide[:, list(range(n, 2 * n))]
+    if m == 3 and n == 1:
+        return a[:, 0][:, None]
+    if m == 4 and n == 1:
+        return np.atleast_2d(a[:, 0].copy()).T
+    if m == 5:
+        return a[::-1][::-1]
+    if m == 6:
+        big = np.repeat(a, 2, axis=0)
+        return big[::2]
+    if m == 7:
+        return np.round(a * 8).astype(rng.choice([np.int64, np.int32]))
+    if m == 8:
+        return a.astype(np.float32)
+    if n == 1:
+        return a[:, 0][:, None]
+    return a
 
 
 @gen(D + 'label_switching_cost_template')
@@ -145,6 +177,9 @@ def _cost_table(rng):
     if mode > 0.96:     # widths around the capacity of the narrow integer dtypes a back-pointer table could be given
         t, k = rng.randint(1, 3), rng.choice([127, 128, 129, 255, 256, 257, 300])
         return farr(rng, t, k)
+    if mode < 0.15:     # integer-dtype table (the property quantifies over every table of costs; a float switching cost must
+        # not be truncated into it) -- small entries, so that fractional switching costs decide
+        return np.array([[rng.randint(0, 3) for _ in range(k)] for _ in range(max(t, 3))], dtype=rng.choice([np.int64, np.int32, np.float32]))
     if mode < 0.3:      # many ties
         return np.array([[float(rng.randint(0, 2)) for _ in range(k)] for _ in range(t)])
     if mode < 0.5:      # huge spread
@@ -524,6 +559,8 @@ def _(rng):
 @gen(CMx + 'calinski_harabasz_index')
 def _(rng):
     ms, data = _fitted_model(rng)
+    if rng.random() < 0.08:     # a long series: clusters with thousands of members (block-wise accumulation, index widths)
+        ms, data = _model(rng, sizes=[rng.choice([1030, 2050, 2600, 4100]), rng.randint(1, 40), rng.choice([5, 1500])], nw=2)
     data = data + np.arange(data.shape[1]) * rng.choice([0.0, 4.0, 10.0])      # sensors with different offsets
     for c in ms.clusters:
         c.stacked_data_mean = data[c.member_points].mean(axis=0)
